@@ -169,6 +169,10 @@ class TracepointConfigService:
         """
         tp_id = str(uuid.uuid4())
         config = build_trigger(tp_id, path, line, args, watches, metrics)
+        if config is None:
+            # we cannot interpret this tracepoint, so do not install it; the other tracepoints are not affected
+            logging.warning("Cannot create tracepoint %s#%s with args %s", path, line, args)
+            return tp_id
         self._custom.append(config)
         self._custom_ids.append(tp_id)
         self.__trigger_update(None, None)
